@@ -73,6 +73,7 @@ type genWorld struct {
 	nextOp    int           // operators registered during the history (dom_genesis_boundary.go)
 	selfUnd   map[int]int64 // what a genesis operator undelegated of its own genesis stake
 	lastOp    operatorView  // the operator module as read before the last export
+	jailed    map[int]bool  // operators currently jailed for the chain (dom_genesis_jail.go)
 
 	// multi-asset world (dom_genesis_multi.go): three LSTs with genesis holders
 	multi   bool
@@ -347,7 +348,7 @@ func importChain(orig *Chain, appState json.RawMessage, height int64, rows []del
 	c2 = &Chain{Cfg: orig.Cfg, App: app, Operators: orig.Operators, ConsKeys: orig.ConsKeys, ConsPrivs: orig.ConsPrivs,
 		Funded: orig.Funded, AssetIDs: orig.AssetIDs, LzID: orig.LzID, AVSAddr: orig.AVSAddr, ChainIDNR: orig.ChainIDNR}
 	// genesis time: the time of the last committed block (what a node operator would put into genesis.json)
-	app.InitChain(abci.RequestInitChain{
+	initRes := app.InitChain(abci.RequestInitChain{
 		Time: orig.Header.Time, ChainId: orig.Cfg.ChainID, Validators: []abci.ValidatorUpdate{},
 		ConsensusParams: exocoreapp.DefaultConsensusParams, AppStateBytes: appState, InitialHeight: height,
 	})
@@ -361,6 +362,8 @@ func importChain(orig *Chain, appState json.RawMessage, height int64, rows []del
 	post.params = viewParams(c2, ictx)
 	post.pools = poolsObs(c2, ictx, rows) // the delegation rows of the ORIGINAL chain, answered by the re-imported one
 	post.queries = genQueries(c2, ictx)
+	post.valset = viewValset(c2, ictx)
+	post.valset.init = initValidators(initRes.Validators) // what the consensus engine is given as the initial validator set
 	post.dumps = map[string][]string{}
 	for _, m := range c18Modules {
 		post.dumps[m] = StoreDumpCtx(c2, ictx, m)
@@ -377,6 +380,7 @@ type postInit struct {
 	params   paramsView
 	pools    string
 	queries  map[string]string
+	valset   valsetView
 	exports  map[string]string
 	dumps    map[string][]string
 }
@@ -438,6 +442,7 @@ type roundTripResult struct {
 	postOp      operatorView
 	postParams  paramsView
 	postPools   string
+	postValset  valsetView
 	queryDiff   []string // readers that walk the delegation rows: questions the two chains answer differently
 }
 
@@ -505,6 +510,7 @@ func (w *genWorld) roundTripWith(contBlocks int, directed bool) (res roundTripRe
 		return
 	}
 	res.postPools = post.pools
+	res.postValset = post.valset
 	res.queryDiff = diffQueries(genQueries(c, committedCtx(c)), post.queries, "right after the import")
 	res.c2 = c2
 	res.post = post.view
